@@ -305,6 +305,10 @@ class C09(Machine):
                             vs.append(vio("bitcnt_at_yield", kind, ck, call["pulls"][i], {"block": i, "bitcnt": obs(e, "bitcnt"), "expected": counters[i], "piece_len": len(piece), "prior_bits": prior, "kw": kw}))
                             bad = True
                             break
+                        if (not final or i < len(blocks) - 2) and obs(e, "padflag") is not False:
+                            vs.append(vio("padflag_early", kind, ck, call["pulls"][i], {"block": i, "blocks": len(blocks), "padflag": obs(e, "padflag")}))
+                            bad = True
+                            break
                         if final and i == len(blocks) - 1:
                             if obs(e, "padflag") is not True:
                                 vs.append(vio("padflag", kind, ck, call["pulls"][i], {"padflag": obs(e, "padflag")}))
